@@ -7,7 +7,7 @@ namespace Monero.Edw
 open Ed Monero.Keys
 
 /-- the fourth coordinate returned by the permissive decompression is `x·y` -/
-theorem decompressDalek_t (k : ℕ) (P : Pt) (h : decompressDalek k = some P) : P.t = P.x * P.y % Ed.p := by
+theorem decompressDalek_t_keyops (k : ℕ) (P : Pt) (h : decompressDalek k = some P) : P.t = P.x * P.y % Ed.p := by
   unfold decompressDalek at h
   simp only [] at h
   split at h
@@ -17,9 +17,9 @@ theorem decompressDalek_t (k : ℕ) (P : Pt) (h : decompressDalek k = some P) : 
     rfl
 
 /-- a successful permissive decompression returns valid (reduced, affine, on-curve) extended coordinates -/
-theorem decompressDalek_valid (k : ℕ) (P : Pt) (h : decompressDalek k = some P) : Valid P := by
+theorem decompressDalek_valid_keyops (k : ℕ) (P : Pt) (h : decompressDalek k = some P) : Valid P := by
   obtain ⟨-, hz, hx, hy, hc, -⟩ := decompressDalek_sound k P h
-  have ht := decompressDalek_t k P h
+  have ht := decompressDalek_t_keyops k P h
   have hz1 : ((P.z : ℕ) : F) = 1 := by rw [hz]; simp
   refine ⟨⟨hx, hy, by rw [hz]; exact p_gt_one, by rw [ht]; exact mod_p_lt _⟩, ?_, ?_, ?_⟩
   · rw [hz1]; exact one_ne_zero
@@ -46,7 +46,7 @@ strict decoder `edOps.dec` assigns to the bytes -/
 theorem keyPoint_of_accept (a : Bytes) (ha : publicAccept a = true) :
     ∃ (P : Pt) (hP : Valid P), keyPoint a = some P ∧ edOps.dec a = some (toPoint P hP) := by
   obtain ⟨hlen, P, hd, he⟩ := (publicAccept_iff a).mp ha
-  have hP := decompressDalek_valid _ P hd
+  have hP := decompressDalek_valid_keyops _ P hd
   have hk : keyPoint a = some P := by
     unfold keyPoint
     rw [if_neg (by simp [hlen])]; exact hd
@@ -57,7 +57,7 @@ theorem keyPoint_of_accept (a : Bytes) (ha : publicAccept a = true) :
 /-- an accepted key decodes (strictly) to a group element whose encoding is the key -/
 theorem dec_of_accept (a : Bytes) (ha : publicAccept a = true) : ∃ A : EdPoint, edOps.dec a = some A ∧ edOps.enc A = a := by
   obtain ⟨-, P, hd, he⟩ := (publicAccept_iff a).mp ha
-  have hP := decompressDalek_valid _ P hd
+  have hP := decompressDalek_valid_keyops _ P hd
   refine ⟨toPoint P hP, ?_, ?_⟩
   · have := edOps_dec_enc (toPoint P hP)
     rwa [← encodePt_eq_enc hP, he] at this
